@@ -41,6 +41,7 @@ PINS = [
     'mesonbuild.cargo.interpreter:Interpreter._dep_package',
     'mesonbuild.cargo.interpreter:Interpreter._get_cfgs',
     'mesonbuild.cargo.interpreter:Interpreter._split_cfg',
+    'mesonbuild.compilers.rust:RustCompiler.get_cfgs',
 ]
 TRUSTED = [
     'Cargo matcher and SemVer 2.0.0 section 11 precedence are written down from the Cargo reference / semver.org '
@@ -631,6 +632,10 @@ def gen_tables(ctx: Ctx) -> None:
             f'def updateBlocks : List (List String) := {lb(blocks)}\n\n'
             '/-- the same for every other method that assigns `self.version` -/\n'
             f'def otherMutatorBlocks : List (List (List String)) := [{", ".join(lb(b) for b in others)}]\n\n'
+            '/-- (function, memoised callee) pairs in cargo/interpreter.py where the object returned by a memoised\n'
+            'callable (`functools.lru_cache` / `cached_property` / `lazy_property`) is mutated in place without a copy -/\n'
+            'def aliasedMutations : List (String × String) := ['
+            + ', '.join(f'("{a}", "{b}")' for a, b in aliased_mutations()) + ']\n\n'
             'end MesonModel.Generated.CargoCache\n')
     path = os.path.join(common.LEAN, 'MesonModel', 'Generated', 'CargoCache.lean')
     old = open(path, encoding='utf-8').read() if os.path.exists(path) else ''
@@ -916,6 +921,9 @@ def run_objects(ctx: Ctx, V, C, mex, add, parts) -> None:
         from mesonbuild.mesonlib import MachineChoice
         drive_resolution(ctx, V, M, mex, Interpreter, PackageConfiguration, MachineChoice, parts)
         drive_cfg_tables(ctx, C, mex, Interpreter, MachineChoice)
+        drive_memoised(ctx, C, mex, add)
+        if ctx.tier == 'thorough':
+            e2e_cfg_subprojects(ctx)
     except ImportError as e:
         ctx.notes.append(f'objects: interpreter not importable ({e}); resolution / cfg-table streams skipped')
 
@@ -1057,6 +1065,346 @@ def drive_cfg_tables(ctx, C, mex, Interpreter, MachineChoice) -> None:
     if incompatible:
         ctx.notes.append(f'objects: {incompatible} _get_cfgs drives skipped (stub no longer fits the interpreter)')
         ctx.tag('objects:cfg-table-stub-incompatible', incompatible)
+
+
+
+# ------------------------------------------------------------------ memoised callables (lru_cache & co.)
+
+MEMO_MODULES = ['mesonbuild.cargo.interpreter', 'mesonbuild.cargo.manifest', 'mesonbuild.compilers.rust']
+MUTATING = {'append', 'extend', 'insert', 'remove', 'pop', 'clear', 'sort', 'reverse', 'update', 'setdefault',
+            'popitem', 'add', 'discard', '__setitem__', '__delitem__'}
+
+
+def is_memoised(attr: object) -> bool:
+    return is_lazy(attr) or (callable(attr) and hasattr(attr, 'cache_info') and hasattr(attr, '__wrapped__'))
+
+
+def harvest_memoised() -> T.Dict[str, T.Dict[str, T.List[str]]]:
+    """{module: {class or '<module>': [memoised names]}} from the live source"""
+    import importlib
+    out: T.Dict[str, T.Dict[str, T.List[str]]] = {}
+    for mn in MEMO_MODULES:
+        mod = importlib.import_module(mn)
+        per: T.Dict[str, T.List[str]] = {}
+        names = sorted(k for k, v in vars(mod).items() if is_memoised(v) and getattr(v, '__module__', mn) == mn)
+        if names:
+            per['<module>'] = names
+        for cn, cls in sorted(vars(mod).items()):
+            if inspect.isclass(cls) and cls.__module__ == mn:
+                ns = sorted(k for k, v in vars(cls).items() if is_memoised(v))
+                if ns:
+                    per[cn] = ns
+        out[mn] = per
+    return out
+
+
+def aliased_mutations() -> T.List[T.Tuple[str, str]]:
+    """functions of cargo/interpreter.py that take the object a memoised callable returns and mutate it in place
+    (no copy in between): [(function, memoised callee)]"""
+    import importlib
+    memo_names = {n for per in harvest_memoised().values() for ns in per.values() for n in ns}
+    mod = importlib.import_module('mesonbuild.cargo.interpreter')
+    tree = ast.parse(inspect.getsource(mod))
+    found: T.Set[T.Tuple[str, str]] = set()
+
+    def memo_source(e: ast.AST) -> T.Optional[str]:
+        """name of the memoised callable whose result `e` IS (same object), else None"""
+        if isinstance(e, ast.Call) and isinstance(e.func, ast.Attribute) and e.func.attr == 'cast' and len(e.args) == 2:
+            return memo_source(e.args[1])                       # T.cast(type, x) is x
+        if isinstance(e, ast.Call) and isinstance(e.func, (ast.Attribute, ast.Name)):
+            n = e.func.attr if isinstance(e.func, ast.Attribute) else e.func.id
+            return n if n in memo_names else None
+        if isinstance(e, ast.Attribute) and e.attr in memo_names:   # lazy / cached property read
+            return e.attr
+        return None
+
+    for fdef in ast.walk(tree):
+        if not isinstance(fdef, (ast.FunctionDef, ast.AsyncFunctionDef)):
+            continue
+        alias: T.Dict[str, str] = {}
+        for n in ast.walk(fdef):
+            if isinstance(n, ast.Assign) and len(n.targets) == 1 and isinstance(n.targets[0], ast.Name):
+                src = memo_source(n.value)
+                if src:
+                    alias[n.targets[0].id] = src
+                elif isinstance(n.value, ast.Name) and n.value.id in alias:
+                    alias[n.targets[0].id] = alias[n.value.id]
+        if not alias:
+            continue
+        for n in ast.walk(fdef):
+            tgt = None
+            if isinstance(n, ast.Call) and isinstance(n.func, ast.Attribute) and n.func.attr in MUTATING \
+                    and isinstance(n.func.value, ast.Name):
+                tgt = n.func.value.id
+            elif isinstance(n, ast.AugAssign) and isinstance(n.target, ast.Name):
+                tgt = n.target.id
+            elif isinstance(n, (ast.Assign, ast.AugAssign, ast.Delete)):
+                tl = n.targets if isinstance(n, (ast.Assign, ast.Delete)) else [n.target]
+                for t in tl:
+                    if isinstance(t, ast.Subscript) and isinstance(t.value, ast.Name) and t.value.id in alias:
+                        found.add((fdef.name, alias[t.value.id]))
+            if tgt in alias:
+                found.add((fdef.name, alias[tgt]))
+    return sorted(found)
+
+
+class _Obj:
+    """plain hashable attribute bag (lru_cache keys on `self`)"""
+    def __init__(self, **kw: T.Any) -> None:
+        self.__dict__.update(kw)
+
+
+def make_rust_world(lines_by_machine, args_by_key, MachineChoice):
+    """ONE interpreter stub with one compiler object per machine. The compiler class carries the REAL memoised
+    functions of RustCompiler (harvested), its `rustc --print cfg` output is served by a fake Popen."""
+    from mesonbuild.compilers import rust as R
+    from mesonbuild.cargo.interpreter import Interpreter
+    memo = {k: v for k, v in vars(R.RustCompiler).items() if is_memoised(v)}
+    FakeRustc = type('FakeRustc', (), dict(memo, get_exelist=lambda self, ccache=True: ['fake-rustc', self.tag],
+                                           get_exe_args=lambda self: []))
+    compilers = {}
+    for m, lines in lines_by_machine.items():
+        c = FakeRustc()
+        c.tag = 'id%x' % id(c)
+        _FAKE_RUSTC_OUT[c.tag] = '\n'.join(lines) + ('\n' if lines else '')
+        compilers[m] = {'rust': c}
+
+    def get_value_for(key, *a, **kw):
+        if getattr(key, 'name', None) != 'rust_args':
+            raise KeyError(key)
+        return list(args_by_key.get((key.machine, key.subproject or ''), []))
+    interp = _Obj(environment=_Obj(coredata=_Obj(compilers=compilers, optstore=_Obj(get_value_for=get_value_for))))
+    for n, v in vars(Interpreter).items():
+        if isinstance(v, staticmethod):
+            setattr(interp, n, v.__func__)
+    return interp, compilers
+
+
+_FAKE_RUSTC_OUT: T.Dict[str, str] = {}
+
+
+def _fake_popen(cmd, *a, **kw):
+    if len(cmd) >= 2 and cmd[0] == 'fake-rustc':
+        return None, _FAKE_RUSTC_OUT.get(cmd[1], ''), ''
+    raise StubIncompatible(cmd)
+
+
+def table_wire(t: T.Mapping[str, str]) -> str:
+    return ','.join(enc(k) + '=' + enc(v) for k, v in t.items())
+
+
+def drive_memoised(ctx, C, mex, add) -> None:
+    """SEQUENCES of calls of every memoised method of the cargo interpreter (and of the compiler helpers it
+    calls) on ONE interpreter / compiler object, keys differing in machine x subproject x --cfg rust_args.
+    Oracle after every call: (1) equals what FRESH objects give for that key; (2) nothing returned earlier for
+    another key has changed; (3) the compiler's own memoised results are unchanged; (4) the table is exactly
+    {rustc cfgs} U {that subproject's --cfg flags} and eval_cfg on it has the value of the expression's structure."""
+    import copy
+    from mesonbuild.compilers import rust as R
+    from mesonbuild.cargo.interpreter import Interpreter
+    from mesonbuild.mesonlib import MachineChoice
+    rng = ctx.rng
+    harvested = harvest_memoised()
+    ctx.extra['memoised_callables'] = harvested
+    interp_memo = [n for n in harvested.get('mesonbuild.cargo.interpreter', {}).get('Interpreter', [])
+                   if hasattr(vars(Interpreter)[n], 'cache_info')]
+    rustc_memo0 = [n for n in harvested.get('mesonbuild.compilers.rust', {}).get('RustCompiler', [])
+                   if hasattr(vars(R.RustCompiler)[n], 'cache_info')]
+
+    def keyed(fn) -> bool:
+        """a memoised method whose key is (machine, subproject): decided from its annotations, not its name"""
+        ps = list(inspect.signature(fn.__wrapped__).parameters.values())[1:]
+        anns = [str(p.annotation) for p in ps]
+        return len(ps) == 2 and 'MachineChoice' in anns[0] and ('SubProject' in anns[1] or anns[1] in ('str', "<class 'str'>"))
+
+    driven = [n for n in interp_memo if keyed(vars(Interpreter)[n])]
+    for n in interp_memo:
+        if n not in driven:
+            ctx.tag('memo:undriven:Interpreter.' + n)
+    machines = [MachineChoice.HOST, MachineChoice.BUILD]
+    subs = ['', 'a-1-rs', 'b-1-rs', 'c-1-rs']
+    names = ['unix', 'target_os', 'target_arch', 'feature', 'debug_assertions', 'panic', 'foo', 'bar', 'a', 'b']
+    vals = ['linux', 'x86_64', 'unwind', 'x y', 'a,b', '1']
+    orig_popen = R.Popen_safe_logged
+    R.Popen_safe_logged = _fake_popen
+    skipped = 0
+    try:
+        def world():
+            base = {}
+            for m in machines:
+                d = {n: (rng.choice(vals) if rng.random() < 0.5 else '') for n in rng.sample(names[:6], rng.randint(0, 5))}
+                base[m] = d
+            glob = []
+            if rng.random() < 0.4:
+                glob = rng.choice([[], ['-C', 'opt-level=2']]) + ['--cfg', rng.choice(['glob', 'feature="g"'])]
+            args, flags = {}, {}
+            for m in machines:
+                for sp in subs:
+                    own = {n: (rng.choice(vals) if rng.random() < 0.3 else '')
+                           for n in rng.sample(names[4:], rng.choice([0, 0, 1, 1, 2]))}
+                    a = list(glob)
+                    for n, v in own.items():
+                        a += rng.choice([[], ['-g']]) + ['--cfg', n if v == '' else f'{n}="{v}"']
+                    args[(m, sp)] = a
+                    flags[(m, sp)] = own
+            return base, glob, args, flags
+
+        def lines_of(d):
+            return [n if v == '' else f'{n}="{v}"' for n, v in d.items()]
+
+        def intended(base, glob, flags, key):
+            t = dict(base[key[0]])
+            for g in glob:
+                if g.startswith('-') or g == 'opt-level=2':
+                    continue
+                k, _, v = g.partition('=')
+                t[k] = v.strip('"')
+            t.update(flags[key])
+            return t
+
+        n_hist = ctx.scale(700, 7000)
+        all_keys = [(m, sp) for m in machines for sp in subs]
+        for h in range(n_hist):
+            base, glob, args, flags = world()
+            lines = {m: lines_of(base[m]) for m in machines}
+            if h % 3 == 0:
+                calls = list(rng.choice(list(itertools.permutations(all_keys[:6], rng.choice([2, 3])))))
+            else:
+                calls = [rng.choice(all_keys) for _ in range(rng.randint(2, 8))]
+            for meth in driven:
+                fn = vars(Interpreter)[meth]
+                try:
+                    interp, comps = make_rust_world(lines, args, MachineChoice)
+                    returned: T.List[T.Tuple[T.Any, T.Any, T.Any]] = []   # (key, object, deep copy)
+                    trace: T.List[str] = []
+                    outs: T.List[str] = []
+                    bad = None
+                    base_bad = None
+                    for key in calls:
+                        # optionally read the compiler's own memoised results in between (zero-argument ones)
+                        if rustc_memo0 and rng.random() < 0.3:
+                            zn = rng.choice(rustc_memo0)
+                            try:
+                                getattr(comps[key[0]]['rust'], zn)()
+                                trace.append(f'rustc[{key[0].name}].{zn}()')
+                            except (StubIncompatible, AttributeError, TypeError, KeyError, OSError, IndexError):
+                                pass
+                        res = fn(interp, key[0], key[1])
+                        trace.append(f'{meth}({key[0].name}, {key[1]!r})')
+                        outs.append(table_wire(res) if isinstance(res, dict) else repr(res))
+                        ctx.count()
+                        f_interp, _fc = make_rust_world(lines, args, MachineChoice)
+                        fresh = fn(f_interp, key[0], key[1])
+                        if res != fresh:
+                            bad = (f'{meth}{(key[0].name, key[1])} returns {res!r} after {trace[:-1]}; a fresh interpreter/compiler '
+                                   f'gives {fresh!r}')
+                        for k0, obj, cp in returned:
+                            if bad is None and obj != cp:
+                                bad = f'the result returned earlier for {(k0[0].name, k0[1])} changed from {cp!r} to {obj!r} after {trace}'
+                        for m in machines:
+                            now = comps[m]['rust'].get_cfgs() if 'get_cfgs' in rustc_memo0 else lines[m]
+                            if base_bad is None and list(now) != lines[m]:
+                                # root cause; the history goes on to show what a consumer then sees
+                                base_bad = (f"the {m.name} compiler's memoised get_cfgs() is now {list(now)!r} after {list(trace)}; "
+                                            f'`rustc --print cfg` gave {lines[m]!r}')
+                        if isinstance(res, dict):
+                            want = intended(base, glob, flags, key)
+                            if bad is None and dict(res) != want:
+                                bad = (f'{meth}{(key[0].name, key[1])} = {res!r} after {trace[:-1]}; expected exactly rustc cfgs + own --cfg '
+                                       f'flags = {want!r}')
+                            t = rand_tree(rng, 2, names, vals[:3] + [''])
+                            inner = render_tree(t, lambda: rng.choice(['', ' ']))
+                            try:
+                                got: T.Any = C.eval_cfg('cfg(' + inner + ')', res)
+                            except mex:
+                                got = 'MesonException'
+                            if bad is None and got != truth(t, want):
+                                bad = (f'cfg({inner}) for {(key[0].name, key[1])} evaluates to {got} after {trace}; under rustc cfgs + own '
+                                       f'--cfg flags {want!r} its structure says {truth(t, want)}')
+                        returned.append((key, res, copy.deepcopy(res)))
+                        if bad:
+                            break
+                    ctx.tag('memo:history:Interpreter.' + meth)
+                    case = {'object': 'memoised:Interpreter.' + meth, 'rustc_cfg': {m.name: lines[m] for m in machines},
+                            'rust_args': {f'{m.name}:{sp}': a for (m, sp), a in args.items() if a},
+                            'calls': [(k[0].name, k[1]) for k in calls], 'history': trace}
+                    if bad and base_bad:
+                        bad = bad + ' [cause: ' + base_bad + ']'
+                    bad = bad or base_bad
+                    if bad:
+                        ctx.violation(f'memo:Interpreter.{meth}:{">".join(trace)}:{sorted(case["rust_args"].items())}', bad, case)
+                    elif meth == '_get_cfgs' or all(isinstance(x, str) for x in outs):
+                        fin = ['H:' + common.enc_list(list(comps[MachineChoice.HOST]['rust'].get_cfgs())),
+                               'B:' + common.enc_list(list(comps[MachineChoice.BUILD]['rust'].get_cfgs()))] \
+                            if 'get_cfgs' in rustc_memo0 else []
+                        mi = {MachineChoice.HOST: '0', MachineChoice.BUILD: '1'}
+                        wire_args = ';'.join(f'{mi[m]}.{subs.index(sp)}:{common.enc_list(a)}' for (m, sp), a in args.items() if a)
+                        wire_calls = ';'.join(f'{mi[k[0]]}.{subs.index(k[1])}' for k in calls)
+                        if meth == '_get_cfgs' and fin:
+                            add('cfgs', case, f'cfgs {common.enc_list(lines[MachineChoice.HOST])}|'
+                                f'{common.enc_list(lines[MachineChoice.BUILD])}|{wire_args}|{wire_calls}', ';'.join(outs + fin))
+                except (StubIncompatible, AttributeError, TypeError, KeyError) as e:
+                    skipped += 1
+    finally:
+        R.Popen_safe_logged = orig_popen
+        _FAKE_RUSTC_OUT.clear()
+    if skipped:
+        ctx.notes.append(f'memo: {skipped} histories skipped (stub no longer fits the interpreter/compiler)')
+        ctx.tag('memo:stub-incompatible', skipped)
+
+
+def e2e_cfg_subprojects(ctx) -> None:
+    """thorough tier, real rustc: two cargo subprojects with [target.'cfg(foo)'.dependencies], only the first is
+    built with `--cfg foo` (per-subproject rust_args, stored by `setup`, seen by the cargo interpreter on
+    `--reconfigure`): cfg(foo) must be true for the first and false for the second."""
+    import shutil
+    import subprocess
+    import sys
+    if shutil.which('rustc') is None:
+        ctx.notes.append('e2e: rustc not found, end-to-end cfg leg skipped')
+        return
+    tmp = common.scratch_dir('mverif-c20-')
+    try:
+        def write(path, text, mode=0o644):
+            os.makedirs(os.path.dirname(path), exist_ok=True)
+            with open(path, 'w', encoding='utf-8') as f:
+                f.write(text)
+            os.chmod(path, mode)
+        write(os.path.join(tmp, 'bin', 'ninja'), '#!/bin/sh\nif [ "$1" = "--version" ]; then echo 1.11.1; fi\nexit 0\n', 0o755)
+        env = dict(os.environ, PYTHONPATH=common.REPO, PATH=os.path.join(tmp, 'bin') + os.pathsep + os.environ.get('PATH', ''))
+        env.pop('RUSTFLAGS', None)
+        src, build = os.path.join(tmp, 'src'), os.path.join(tmp, 'build')
+        write(os.path.join(src, 'meson.build'), "project('top', 'rust')\na = subproject('a-1-rs')\nb = subproject('b-1-rs')\n")
+        for name, table in (('a', "[target.'cfg(foo)'.dependencies]\nc = \"1\"\n"),
+                            ('b', "[target.'cfg(foo)'.dependencies]\nmissing_for_b = \"1\"\n"), ('c', '')):
+            write(os.path.join(src, 'subprojects', f'{name}-1-rs.wrap'), '[wrap-file]\nmethod = cargo\n')
+            write(os.path.join(src, 'subprojects', f'{name}-1-rs', 'Cargo.toml'),
+                  f'[package]\nname = "{name}"\nversion = "1.0.0"\nedition = "2021"\n\n[lib]\npath = "lib.rs"\n\n' + table)
+            write(os.path.join(src, 'subprojects', f'{name}-1-rs', 'lib.rs'), 'pub fn f() -> i32 { 1 }\n')
+        out = ''
+        for what, args in (('setup', ['setup', build, src, '-Da-1-rs:rust_args=--cfg foo']),
+                           ('reconfigure', ['setup', '--reconfigure', build, src])):
+            p = subprocess.run([sys.executable, os.path.join(common.REPO, 'meson.py')] + args, env=env,
+                               stdout=subprocess.PIPE, stderr=subprocess.STDOUT, universal_newlines=True, timeout=600)
+            out = p.stdout
+            ctx.count()
+            if p.returncode != 0:
+                if 'missing_for_b' in out:
+                    ctx.violation('e2e:cfg-foo-leaks-into-b-1-rs',
+                                  f"meson {what}: [target.'cfg(foo)'.dependencies] of b-1-rs was enabled although only a-1-rs is "
+                                  "built with --cfg foo", {'e2e': 'two cargo subprojects, -Da-1-rs:rust_args=--cfg foo, setup + --reconfigure',
+                                                           'log_tail': out[-600:]})
+                else:
+                    ctx.notes.append(f'e2e: meson {what} failed for an unrelated reason; leg inconclusive: {out[-300:]!r}')
+                return
+        if 'c-1-rs| Project name: c-1-rs' not in out:
+            ctx.notes.append('e2e: cfg(foo) was not true for a-1-rs after the reconfigure; leg inconclusive')
+        else:
+            ctx.tag('e2e:cfg-subprojects-ok')
+    except (OSError, subprocess.SubprocessError) as e:
+        ctx.notes.append(f'e2e: {type(e).__name__}; leg inconclusive')
+    finally:
+        common.rmtree(tmp)
 
 
 # ------------------------------------------------------------------ generators
